@@ -196,6 +196,14 @@ Definition new_hook (name : bytes) (o : hook_opts) : start :=
   | Some DJwt => if o_jwt_ok o then Built else OptionsRefused
   end.
 
+(* middleware.HooksFromHookConfigs(cfgs): the hooks are built in order; the FIRST entry that does not build
+   aborts start-up with its error, whatever follows it *)
+Fixpoint hooks_from_configs (l : list (bytes * hook_opts)) : start :=
+  match l with
+  | [] => Built
+  | (n, o) :: r => match new_hook n o with Built => hooks_from_configs r | e => e end
+  end.
+
 (* a connection whose read/write/connect deadline lies in the past fails at once;
    0 means "no deadline" *)
 Definition timeouts_usable (t : redis_timeouts) : bool :=
